@@ -66,8 +66,8 @@ Definition spec_value (s : shape) (bitf : Z -> bool) : Z :=
   norm s (fold_right (fun b acc => (if bitf (Z.of_nat b) then 2 ^ Z.of_nat b else 0) + acc) 0 (seq 0 (Z.to_nat (width s)))).
 
 (* comb-only design, spec: every comb-driven signal = init overridden by active assignments (evaluated in the settled state) *)
-Definition k_comb_spec (sigs : list sigdesc) (comb : list dstmt) (driven : list nat) (evs : list event) : list Z :=
-  if forallb wf_dstmt comb then
+Definition k_comb_spec_gen (check_wf : bool) (sigs : list sigdesc) (comb : list dstmt) (driven : list nat) (evs : list event) : list Z :=
+  if negb check_wf || forallb wf_dstmt comb then
     let n := length sigs in
     let tab := mk_tab sigs in
     let stmts := map lower comb in
@@ -88,3 +88,8 @@ Definition k_comb_spec (sigs : list sigdesc) (comb : list dstmt) (driven : list 
       end in
     1 :: check st0 ++ go st0 evs
   else [0].
+
+Definition k_comb_spec := k_comb_spec_gen true.
+(* the same per-bit specification for targets that name a signal twice (no linearity check): the netlist and
+   testbench semantics; the simulator's read-modify-write code differs there (known finding F9) *)
+Definition k_comb_spec_alias := k_comb_spec_gen false.
